@@ -37,8 +37,13 @@ def worker(chunk):
     out = []
     for mode, pseed, profile in chunk:
         rng = random.Random(pseed)
-        spec = progen.gen_spec(rng, profile, 3, 8, cb_p=0.2, fail_p=0.15, hash_fail_p=0.3,
-                                modes=('coro', 'coro', 'inline', 'thread') if mode == 'C07' else ('coro',))
+        if profile.startswith('motif:'):
+            # a hand-written interaction program (harness/mkcorpus.py), run as a history / as overlapping runs
+            from . import mkcorpus
+            spec = copy.deepcopy({**mkcorpus.CORPUS, **mkcorpus.MOTIFS}[profile[6:]])
+        else:
+            spec = progen.gen_spec(rng, profile, 3, 8, cb_p=0.2, fail_p=0.15, hash_fail_p=0.3,
+                                    modes=('coro', 'coro', 'inline', 'thread') if mode == 'C07' else ('coro',))
         rec = {'mode': mode, 'pseed': pseed, 'profile': profile, 'viol': [], 'div': None, 'spec': spec}
         try:
             if mode == 'C07':
@@ -139,6 +144,10 @@ def main_for(pid, tier_):
     n = 2400 if tier_ == 'quick' else 16000
     profs = ('mixed', 'shared', 'oneof', 'mixed', 'rec', 'switch', 'shared', 'plain')
     cases = [(pid, rng.randrange(1 << 40), profs[i % len(profs)]) for i in range(n)]
+    from . import mkcorpus
+    for name in list(mkcorpus.CORPUS) + list(mkcorpus.MOTIFS):
+        for _ in range(3 if tier_ == 'quick' else 12):
+            cases.append((pid, rng.randrange(1 << 40), 'motif:' + name))
     chunks = [cases[i:i + 8] for i in range(0, len(cases), 8)]
     C.ensure_built()
     recs = []
